@@ -1,7 +1,11 @@
-(* C18 - Retention is bounded: segment count, segment size, (disk files, URL table).
-   Only property theorems (each closed by [exact]) and [Print Assumptions]. *)
+(* C18 - Retention is bounded: segment count, segment size, URL table, (disk files).
+   Only property theorems (each closed by [exact]) and [Print Assumptions].
+   The URL table (last section): in every reachable state a key that resolves is the index, a media
+   playlist, the init segment of a stream that has one, a LISTED non-gap segment of its stream, or
+   (Low-Latency) a part of a listed or open segment or the preload hint - so what has left the
+   window does not resolve any more, and at most SegmentCount segment URIs per stream resolve. *)
 From Coq Require Import List ZArith Bool.
-From GoHls Require Import Model.Mux Proofs.MuxStream Proofs.MuxLift Proofs.MuxWindow Proofs.MuxHistory Proofs.MuxPlaylist.
+From GoHls Require Import Model.Mux Proofs.MuxStream Proofs.MuxLift Proofs.MuxWindow Proofs.MuxHistory Proofs.MuxPlaylist Proofs.MuxPaths Proofs.MuxResolve Proofs.MuxTableConv.
 Import ListNotations.
 Local Open Scope Z_scope.
 
@@ -37,3 +41,16 @@ Theorem c18_error_not_buffered_fmp4 : forall m ti si smp s t seg p,
   part_writeSample m ti si smp = Err 2.
 Proof. exact part_writeSample_limit. Qed.
 Print Assumptions c18_error_not_buffered_fmp4.
+
+(* ---- the URL table holds nothing but what the playlists list ---- *)
+Theorem c18_table_only_lists_retained : forall c m0 ops k h,
+  start c = Ok m0 -> lookup (m_paths (mux_run m0 ops)) k = Some h -> allowed (mux_run m0 ops) k.
+Proof. exact table_only_lists_retained. Qed.
+Print Assumptions c18_table_only_lists_retained.
+
+Theorem c18_resolving_segments_are_listed : forall c m0 ops si id h,
+  start c = Ok m0 -> lookup (m_paths (mux_run m0 ops)) (KSeg si id) = Some h ->
+  exists s g, nth_error (m_streams (mux_run m0 ops)) si = Some s /\ In g (st_segments s) /\ sg_gap g = false /\ sg_id g = id
+              /\ Z.of_nat (length (st_segments s)) <= c_segcount (norm_cfg c).
+Proof. exact resolving_segments_are_listed. Qed.
+Print Assumptions c18_resolving_segments_are_listed.
